@@ -44,7 +44,10 @@ def run(ck):
     # the query mark and the addressed node reach the dispatcher as parsed
     import parsefields
     import skeleton
-    parsefields.check(ck, lib, skeleton.Skeleton(ck, lib), "C01-Q", ("query", "node"))
+    sk_ = skeleton.Skeleton(ck, lib)
+    parsefields.check(ck, lib, sk_, "C01-Q", ("query", "node"))
+    import primitives
+    primitives.check(ck, lib, sk_, "C01-PR")
     rule_S(ck)
     rule_T(ck)
     if ck.tier == "thorough":
@@ -502,27 +505,32 @@ def rule_S(ck):
                 continue
             # pushes into the new path list, each being a clone of the current path extended (or not) by a form
             ext = {}
-            outs = []
-            newp = None
+            got = []
+            COPY = ("clone", "to_vec", "to_owned", "to_string", "into", "from")
+
+            def copy_of(t):
+                """t = copy(x) (through borrowing views) -> x"""
+                t = strip_sites(t)
+                if t[0] == "call" and t[1].split("::")[-1] in COPY and t[2]:
+                    u = t[2][-1]
+                    while u[0] == "call" and u[1].split("::")[-1] in ("as_str", "as_slice", "deref", "as_ref", "borrow") and len(u[2]) == 1:
+                        u = u[2][0]
+                    return u
+                return None
             for e in after:
                 if e[0] == "call" and e[1].endswith("::push"):
-                    tgt, v = e[2]
+                    tgt, v = strip_sites(e[2][0]), strip_sites(e[2][1])
                     if tgt[0] == "loopvar":
-                        newp = tgt
-                        outs.append(v)
+                        # the path pushed into the new list: a copy of the current path with what was pushed onto it since
+                        src = copy_of(v)
+                        isclone = src is not None and src[0] == "iter_item"
+                        forms = []
+                        for a in ext.pop(v, []):
+                            fsrc = copy_of(a)
+                            forms.append(fsrc[2] if fsrc is not None and fsrc[0] == "field" and fsrc[1] == strip_sites(part) else "?")
+                        got.append((isclone, tuple(forms)))
                     else:
                         ext.setdefault(tgt, []).append(v)
-            got = []
-            for v in outs:
-                isclone = v[0] == "call" and v[1].endswith("::clone") and v[2][0][0] == "iter_item"
-                adds = ext.get(v, [])
-                forms = []
-                for a in adds:
-                    if a[0] == "call" and a[1].endswith("::clone") and a[2][0][0] == "field" and a[2][0][1] == part:
-                        forms.append(a[2][0][2])
-                    else:
-                        forms.append("?")
-                got.append((isclone, tuple(forms)))
             want = [(True, ("long",))] + ([(True, ("short",))] if ne else []) + ([(True, ())] if opt else [])
             ck.judge(got == want, "C01-S", key, "every path so far is extended by %s" % [w[1] for w in want],
                      "a step of paths() extends the paths by %s, expected %s" % ([g[1] if g[0] else "not-a-clone" for g in got], [w[1] for w in want]), data=pathsum.show_exit(x)[:800])
